@@ -22,7 +22,7 @@ class Group:
                  unwind=None, object_bits=None, timeout=300, mem_gb=8, backend="sat", defines=(),
                  required=(), bounded=None, includes=(), funcs=(), note="", trusted=(), assumptions=(),
                  known=None, extract=None, tier="quick", checks=None, native_ok=True, property_tag=None,
-                 cc_mode="c"):
+                 cc_mode="c", pre_unwindset=None):
         self.name = name; self.src = src; self.entry = entry; self.enforce = enforce
         self.replace = list(replace); self.loops = loops; self.flags = list(flags)
         self.unwindset = unwindset; self.unwind = unwind; self.object_bits = object_bits
@@ -32,7 +32,7 @@ class Group:
         self.note = note; self.trusted = list(trusted); self.assumptions = list(assumptions)
         self.known = known            # dict(id=..., define=..., obligations=[regex]) or None
         self.extract = extract        # callable(workdir) -> dict(info) that writes generated sources
-        self.tier = tier; self.checks = checks; self.property_tag = property_tag; self.unwind_is_obligation = False
+        self.tier = tier; self.checks = checks; self.property_tag = property_tag; self.unwind_is_obligation = False; self.pre_unwindset = pre_unwindset
 
 
 def _limits(mem_gb):
@@ -103,6 +103,15 @@ def run_group(g, workroot, extra_defines=(), want_trace=False, only_property=Non
         if rc != 0:
             res["detail"] = "goto-cc failed: " + (se.decode(errors="replace") + so.decode(errors="replace"))[-2000:]
             return res
+        if g.pre_unwindset:
+            # loops without a contract inside a function that has loop contracts are unwound BEFORE the contract pass
+            # (DFCC otherwise rejects assignments to their loop counters)
+            a2 = os.path.join(wd, "a2.gb")
+            rc, so, se, _ = _run(["goto-instrument", "--unwindset", g.pre_unwindset, "--unwinding-assertions", a, a2], 120, 8, wd)
+            if rc != 0:
+                res["detail"] = "goto-instrument --unwindset failed: " + (se.decode(errors="replace") + so.decode(errors="replace"))[-1500:]
+                return res
+            a = a2
         gi = ["goto-instrument", "--dfcc", g.entry, "--no-malloc-may-fail"]
         if g.enforce:
             gi += ["--enforce-contract", g.enforce]
@@ -116,7 +125,7 @@ def run_group(g, workroot, extra_defines=(), want_trace=False, only_property=Non
         if rc != 0:
             res["detail"] = "goto-instrument failed: " + gi_out[-3000:]
             return res
-        if "does not have a contract" in gi_out:
+        if any("does not have a contract" in l and not l.strip().startswith("loop ") for l in gi_out.splitlines()):
             res["detail"] = "goto-instrument: contract missing: " + gi_out[-1500:]
             return res
         checks = list(BASE_CHECKS if g.checks is None else g.checks)
